@@ -131,6 +131,23 @@ def cases(ctx):
             yield {"kind": "rotpair", "axes": [rng.choice("xyz"), rng.choice("xyz")] if rng.random() < 0.4 else [rng.choice("xyz")] * 2,
                    "n": [n1, n2], "d": [d, d if rng.random() < 0.7 else rng.randrange(12)], "q": rng.choice([0, 1, 2]),
                    "third": rng.choice([None, "h", "x"])}
+    # hand-written-style programs: the registers are set once, then several gates follow one another directly (one- and two-qubit
+    # gates, the same registers again, two carbon-carbon gates in a row), on both debug settings
+    for _ in range(ctx.n(120, 40000) * ctx.nshards):
+        if mine():
+            ids = rng.sample([0, 1, 2, 3], 3)
+            gates = []
+            for _g in range(rng.randrange(2, 6)):
+                r = rng.random()
+                if gates and gates[-1][0] in ("cnot", "cphase") and r < 0.35:
+                    gates.append([rng.choice(["cnot", "cphase"]), list(gates[-1][1])])       # ... the same pair again
+                elif r < 0.6:
+                    gates.append([rng.choice(["cnot", "cphase"]), rng.sample([0, 1, 2], 2)])
+                elif r < 0.8:
+                    gates.append([rng.choice("xyzhkst"), [rng.randrange(3)]])
+                else:
+                    gates.append(["rot_" + rng.choice("xyz"), [rng.randrange(3)], rng.randrange(32), 4])
+            yield {"kind": "gateseq", "ids": ids, "gates": gates, "debug": rng.random() < 0.5}
     for m in ("static", "rot", "crot"):
         if m == "static":
             if mine():
@@ -280,6 +297,30 @@ def _run(ctx, case):
         ctx.count("rotations_checked", 2)
         ctx.count("gate_sequences_checked")
         _cmp(ctx, case, got, ideal(b, ops), b, f"sequence {prog[1:]} on qubit {q}")
+    elif kind == "gateseq":
+        ids = case["ids"]
+        prog = [["set", [["Q", r_], ids[r_]]] for r_ in range(3)]
+        ops = []
+        for g_ in case["gates"]:
+            regs = [["Q", r_] for r_ in g_[1]]
+            if g_[0].startswith("rot_"):
+                prog.append([g_[0], regs + [g_[2], g_[3]]])
+                ops.append((rq.rot(g_[0][-1], rq.angle_nd(g_[2], g_[3])), [ids[g_[1][0]]]))
+            elif len(regs) == 2:
+                prog.append([g_[0], regs])
+                ops.append((rq.STATIC2[g_[0]], [ids[r_] for r_ in g_[1]]))
+            else:
+                prog.append([g_[0], regs])
+                ops.append((rq.STATIC1[g_[0]], [ids[g_[1][0]]]))
+        sub = transpiled(prog, case["debug"])
+        left = no_vanilla_left(sub)
+        if left:
+            ctx.fail(case, f"vanilla instruction survives transpilation: {left}")
+            return
+        got = b.run(sub, b.choi())
+        ctx.count("gate_sequences_checked")
+        ctx.count("gates_in_sequences", len(ops))
+        _cmp(ctx, case, got, ideal(b, ops), b, f"registers Q0..Q2 = qubits {ids}, then {case['gates']} (debug={case['debug']})")
     elif kind == "matrix":
         _matrices(ctx, case)
     else:
